@@ -97,45 +97,68 @@ theorem unverified_stays_unverified (c : Nat) (hist : List (Store × In))
 -- hand-over to the encrypted session (hap/session.go, hap/connection.go) ------------------------------------------
 
 open Hc.Handover in
-/-- For EVERY sequence of operations on a plaintext connection — reads starting at any moment (net/http's background
-    read), the handler negotiating the cryptographer, the response being written, the controller sending, in any order
-    and multiplicity — the answer to the finish request is written in plaintext, and the connection gets a current
-    (encrypting) cryptographer only after that answer went out. -/
-theorem hand_over_response_plaintext (ops : List Op) :
-    (run true ops).respEncrypted ≠ some true ∧ ((run true ops).cur = true → (run true ops).respEncrypted = some false) := by
-  obtain ⟨h1, h2⟩ := inv_run ops
+/-- Hand-over to the encrypted session (hap/session.go, hap/connection.go), for EVERY interleaving of the handler's
+    steps, the reads net/http starts, and what arrives on the wire: the answer to the finish request is never written
+    encrypted, and the connection has a current cryptographer only after that answer went out in plaintext. -/
+theorem hand_over_response_plaintext (strict : Bool) (ops : List Op) :
+    (run true strict ops).respEncrypted ≠ some true ∧
+    ((run true strict ops).cur = true → (run true strict ops).respEncrypted = some false) := by
+  obtain ⟨h1, h2⟩ := inv_run strict ops
   refine ⟨h1, fun hc => ?_⟩
-  cases hr : (run true ops).respEncrypted with
+  cases hr : (run true strict ops).respEncrypted with
   | none => rw [h2 hr] at hc; cases hc
   | some b => cases b <;> simp_all
 
 open Hc.Handover in
 /-- …and bytes the controller sent after the answer are handed on as plaintext only if no cryptographer has been
     negotiated at all: a read that was already waiting when the cryptographer was negotiated re-classifies them. -/
-theorem hand_over_reads_decrypted (s : Handover.St) (h : (Handover.step true s .readDone).delivered = some false) (hd : s.delivered ≠ some false) :
+theorem hand_over_reads_decrypted (strict : Bool) (s : Handover.St)
+    (h : (Handover.step true strict s .readDone).delivered = some false) (hd : s.delivered ≠ some false) :
     s.cur = false ∧ s.next = false := by
-  simp only [Handover.step] at h
-  split at h
-  · exact absurd h hd
-  · split at h
-    · exact absurd h hd
-    · rename_i dec _ _
-      simp at h
-      cases hc : s.cur <;> cases hn : s.next <;> simp_all
+  obtain ⟨cur, next, pending, resp, wire, del, aw, cl, fp⟩ := s
+  cases cl
+  · simp only [Handover.step, Bool.false_eq_true, if_false, if_true] at h
+    (repeat' split at h) <;> first
+      | exact absurd h hd
+      | (cases cur <;> cases next <;> simp_all)
+  · simp only [Handover.step, if_true] at h; exact absurd h hd
+
+open Hc.Handover in
+/-- "switches to the encrypted session": on a connection that is verified by this finish request (or is about to be),
+    nothing that did not go through the session's Decrypt is ever handed to the HTTP layer — for every operation
+    sequence. Foreign bytes reach the HTTP layer as plaintext only on a connection that has no cryptographer,
+    negotiates none with this request and has already answered it (an ordinary unverified connection, where they are
+    refused by C01). In particular a plaintext request glued behind the genuine finish request is never served. -/
+theorem hand_over_no_foreign_plaintext (ops : List Op) :
+    (run true true ops).foreignPlain = true →
+      (run true true ops).cur = false ∧ (run true true ops).next = false ∧ (run true true ops).awaiting = false :=
+  inv2_run ops
 
 open Hc.Handover in
 /-- the four interleavings of one finish request (read start before the negotiation, between negotiation and answer,
     after the answer, after the controller's bytes arrived): answer in plaintext, controller's bytes decrypted -/
 theorem hand_over_all_schedules :
-    allSchedules.all (fun ops => (run true ops).respEncrypted == some false && (run true ops).delivered == some true) = true ∧
+    allSchedules.all (fun ops => (run true true ops).respEncrypted == some false && (run true true ops).delivered == some true
+      && !(run true true ops).closed) = true ∧
     allSchedules.length = 4 := by decide
 
 open Hc.Handover in
-/-- the code before the repair fails on two of them: a read starting between negotiation and answer makes the answer
+/-- the code before the F18 repair fails on two of them: a read starting between negotiation and answer makes the answer
     go out ENCRYPTED (≈ 3 % of real handshakes, finding F18); a read already waiting hands ciphertext on as plaintext -/
 theorem hand_over_unfixed_refuted :
-    (run false [.setCrypt, .readStart, .writeResp, .peerSends, .readDone]).respEncrypted = some true ∧
-    (run false [.readStart, .setCrypt, .writeResp, .peerSends, .readDone]).delivered = some false := by decide
+    (run false false [.setCrypt, .readStart, .writeResp, .peerSends, .readDone]).respEncrypted = some true ∧
+    (run false false [.readStart, .setCrypt, .writeResp, .peerSends, .readDone]).delivered = some false := by decide
+
+open Hc.Handover in
+/-- the code before the F19 repair: a plaintext request that arrives in the same read as the genuine finish request
+    (or while the handler has not yet negotiated the cryptographer) sits in net/http's buffer and is served after the
+    hand-over, on a connection that by then counts as verified -/
+theorem hand_over_unstrict_refuted :
+    ((run true false [.excess, .setCrypt, .writeResp]).foreignPlain = true ∧ (run true false [.excess, .setCrypt, .writeResp]).cur = true) ∧
+    ((run true false [.readStart, .foreign, .readDone, .setCrypt, .writeResp]).foreignPlain = true ∧
+     (run true false [.readStart, .foreign, .readDone, .setCrypt, .writeResp]).cur = true) ∧
+    (run true true [.excess, .setCrypt, .writeResp]).closed = true ∧
+    (run true true [.readStart, .foreign, .readDone, .setCrypt, .writeResp]).closed = true := by decide
 
 
 -- the behaviour before the repair is refuted -----------------------------------------------------------
